@@ -477,7 +477,8 @@ func (g *Gen) Fill(v reflect.Value, tag string, depth int) {
 	case kBool:
 		v.SetBool(g.Rng.Intn(2) == 1)
 	case kUnary:
-		v.SetUint(uint64(g.Rng.Intn(20)))
+		// any length that fits a cell; the 63/64/65 boundary is where a machine word ends
+		v.SetUint(uint64([]int{0, 1, 2, 19, 62, 63, 64, 65, 66, 127, 128, 500, 1000}[g.Rng.Intn(13)]))
 	case kMaybe:
 		if g.Rng.Intn(2) == 1 && depth < 8 {
 			v.FieldByName("Exists").SetBool(true)
@@ -583,9 +584,10 @@ func (g *Gen) fillOpaqueScalar(v reflect.Value) {
 	}
 	switch v.Kind() {
 	case reflect.Uint8, reflect.Uint16, reflect.Uint32, reflect.Uint64, reflect.Uint:
-		v.SetUint(uint64(g.Rng.Intn(3)))
+		// scalar with its own codec (e.g. a coins type): the whole range of the representation, boundaries first
+		v.SetUint(g.bigBelow(v.Type().Bits()).Uint64())
 	case reflect.Int8, reflect.Int16, reflect.Int32, reflect.Int64, reflect.Int:
-		v.SetInt(int64(g.Rng.Intn(3)))
+		v.SetInt(g.signedBig(v.Type().Bits()).Int64())
 	case reflect.String:
 		v.SetString([]string{"", "a", "hello world", strings.Repeat("x", 130)}[g.Rng.Intn(4)])
 	case reflect.Slice:
@@ -1100,4 +1102,44 @@ func PrimTypes() map[string]reflect.Type {
 		{Name: "Hex", Type: reflect.PointerTo(reflect.StructOf([]reflect.StructField{{Name: "W", Type: reflect.TypeOf(tlb.Bits80{})}})), Tag: `tlbSumType:"hex#c3"`},
 	})
 	return out
+}
+
+// Perturb moves the read cursors of every bit-string valued field inside v (a decoded value that "has been looked at"):
+// the TL-B value of a bit string is all of its bits, wherever its cursor is. Cells (Any, ^Cell) are left alone: for
+// them the cursor is part of the value (the remainder of a cell).
+func Perturb(v reflect.Value, rng *rand.Rand, depth int) {
+	if depth > 40 {
+		return
+	}
+	t := v.Type()
+	switch {
+	case t == tBitStr:
+		if v.CanAddr() {
+			bs := v.Addr().Interface().(*boc.BitString)
+			if n := bs.BitsAvailableForRead(); n > 0 {
+				bs.ReadBits(1 + rng.Intn(n))
+			}
+		}
+		return
+	case t == tCell || t == tAny:
+		return
+	}
+	switch v.Kind() {
+	case reflect.Pointer:
+		if !v.IsNil() {
+			Perturb(v.Elem(), rng, depth+1)
+		}
+	case reflect.Struct:
+		for i := 0; i < v.NumField(); i++ {
+			if t.Field(i).IsExported() {
+				Perturb(v.Field(i), rng, depth+1)
+			}
+		}
+	case reflect.Slice:
+		if t.Elem().Kind() != reflect.Uint8 {
+			for i := 0; i < v.Len(); i++ {
+				Perturb(v.Index(i), rng, depth+1)
+			}
+		}
+	}
 }
